@@ -299,11 +299,27 @@ def run(ctx, prog):
     ctx.rule('C02-D5', 'single writers: results = compute(); scores = discriminant(results) after super().compute_results()')
     ctx.rule('C02-D7', 'Container._compute_batch_size returns a value on every path')
     ctx.assume('that the slice list [k*bs,(k+1)*bs) + tail partitions [0, len) for all (len, bs) is integer arithmetic over run-time sizes and is not decided (solver territory)')
-    ctx.assume('batch invariance of the distinguisher itself is C01; no reset of distinguisher state in the analysis layer is C01-D6')
+    ctx.assume('batch invariance of the distinguisher update itself is C01')
     n = d1(ctx, prog)
     s = d2(ctx, prog)
     d3(ctx, prog, s)
     d4(ctx, prog)
     d5(ctx, prog)
     d7(ctx, prog)
+    # D6: run() ends with compute(); for repeated run() calls to behave as one run over the concatenation, computing the
+    # results must leave the accumulated state untouched: ownership analysis (engine of C01-D5) over every analysis class
+    ctx.rule('C02-D6', 'repeated run() = one run over the concatenation: the compute closure of every analysis class has no persistent effect on accumulated state '
+                       '(ownership analysis), and the analysis layer stores no accumulator / count / first-call marker')
+    from . import c01
+    from .. import universe
+    us, _ = c01.units(prog)
+    n6 = 0
+    for u in us:
+        if not u.cls.mod.name.startswith('scared.analysis'):
+            continue
+        u.guard = c01.find_guard(prog, u)
+        u.acc = universe.accumulators(prog, u.cls, u.init)
+        c01.d5(ctx, prog, u.cls, u.compute, u.acc, u.count, u.guard or '', rule='C02-D6')
+        n6 += 1
+    ctx.floor('analysis classes whose compute closure is checked', n6, 14)
     ctx.floor('distinct run()/hook combinations', n, 2)
